@@ -22,7 +22,7 @@ theorem typesIn_to_l (c : MiniCfg) (P) (r : BRule) (h : SegOK P (TypesIn c) r) :
 
 theorem lTypes_wrap (c : MiniCfg) : QuoteWrap (LTypesIn c) := by
   refine ⟨fun _ _ _ _ h => h, ?_⟩
-  intro s s3 s4 line openT closeT segs _ _ _ _ ho3 _ _ hc3 hS t ht
+  intro s s3 s4 line openT closeT segs _ _ _ _ ho3 _ _ hc3 _ hS t ht
   simp only [List.mem_append, List.mem_singleton, List.mem_flatten] at ht
   rcases ht with (rfl | ⟨g, hg, htg⟩) | rfl
   · simp [lAllowed, qAllowed, ho3]
@@ -38,7 +38,7 @@ theorem lTypes_listWrap (c : MiniCfg) : ListWrap (LTypesIn c) := by
     obtain ⟨u, hu, he⟩ := hm
     have := (hidden_eq_fields he).2.2.1
     rw [← this]; exact hS u hu
-  · intro s s2 openT closeT m segs _ _ _ _ _ hty hS t ht
+  · intro s s2 openT closeT m segs _ _ _ _ _ _ hty hS t ht
     simp only [List.mem_append, List.mem_singleton, List.mem_flatten] at ht
     simp only [List.mem_cons, Prod.mk.injEq, List.not_mem_nil, or_false] at hty
     rcases ht with (rfl | ⟨g, hg, htg⟩) | rfl
